@@ -29,6 +29,16 @@ Facts ==
     /\ Tokenize(<<97, 95, 98>>) = << <<97, 95, 98>> >>                          \* a_b   one word
     /\ Tokenize(<<97, 98>>) = <<>> /\ Tokenize(<<97, 98, 98>>) = << <<97, 98, 98>> >>
     /\ Match(<<65, 66, 67>>, <<97, 98, 99>>, "ci") /\ ~Match(<<65, 66, 67>>, <<97, 98, 99>>, "bin")
-ModelOK == Sane /\ Facts
+\* the length boundary of the index (evaluated in one state only, and not in an initial state: initial
+\* states are computed on the JVM's main thread, whose stack is too small for 250 recursion levels)
+LongDoc == Rep(83, 113) \o <<32>> \o Rep(85, 113) \o <<44>> \o Rep(84, 107) \o <<39>> \o Rep(84, 81) \o <<39, 39>> \o Rep(84, 113) \o <<39>>
+LongFacts ==
+    /\ Tokenize(LongDoc) = TokenizeSM(LongDoc) /\ Len(Tokenize(LongDoc)) = 2
+    /\ Tokenize(Rep(84, 113)) = << Rep(84, 113) >>                               \* exactly the maximum: indexed
+    /\ Tokenize(Rep(85, 113)) = <<>>                                            \* longer: not indexed
+    /\ Tokenize(Rep(83, 113) \o <<32>> \o Rep(85, 113) \o <<44>> \o Rep(84, 107)) = << Rep(83, 113), Rep(84, 107) >>
+    /\ Match(Rep(84, 113), <<97, 98, 32>> \o Rep(84, 113), "bin") /\ ~Match(Rep(85, 113), Rep(85, 113), "bin")
+    /\ ~Match(Rep(84, 113), Rep(83, 113), "bin") /\ Match(Rep(84, 81), Rep(84, 113), "ci")
+ModelOK == Sane /\ Facts /\ ((phase = 1 /\ d = <<97>>) => LongFacts)
 
 =============================================================================
